@@ -473,6 +473,23 @@ func runC13(seed int64, n int, tier string, outDir string) (*Report, error) {
 			cwOdd.Add(term(kind, ops, tr), fmt.Sprintf("odd directed %s %v", c13Containers[kind], ops))
 		}
 	}
+	// the hypotheses of C13_refines_items_equal and C13_refines_iris_pool, evaluated on the pool the histories above run over
+	// (and the odd pool must NOT satisfy them: it is outside the property's domain)
+	hdrP := "From AP.Model Require Import Prelude Vocab Pred Equal Coll.\nFrom AP.Proofs Require Import CollP CollIrisP.\n" +
+		"Definition ok (c : list item * bool) : bool := let '(p, want) := c in Bool.eqb (distinct_pool p && iris_pool p) want.\n"
+	cwP := NewCaseWriter(outDir, "Cases_C13_pools", hdrP, "list item * bool")
+	poolTerm := func(p []ap.Item) string {
+		parts := make([]string, len(p))
+		for i, it := range p {
+			parts[i] = CoqItem(it)
+		}
+		return "[" + strings.Join(parts, "; ") + "]"
+	}
+	cwP.Add("("+poolTerm(pool)+", true)", "pool of the histories: distinct_pool && iris_pool")
+	cwP.Add("("+poolTerm(odd)+", false)", "odd pool: outside the domain")
+	if _, err := cwP.Close(); err != nil {
+		return nil, err
+	}
 	p1, err := cw.Close()
 	if err != nil {
 		return nil, err
@@ -482,7 +499,7 @@ func runC13(seed int64, n int, tier string, outDir string) (*Report, error) {
 		return nil, err
 	}
 	rep.CaseFiles = []string{p1, p2}
-	rep.CoqCases = cw.total + cwOdd.total
+	rep.CoqCases = cw.total + cwOdd.total + cwV.total + cwP.total
 	rep.Exhaustive = true
 	rep.Notes = append(rep.Notes, fmt.Sprintf("natively exhaustive up to length %d over %d operations x 6 containers", bound, len(alphabet)))
 	return rep, nil
